@@ -106,18 +106,22 @@ def run_safety(case):
             if "No PSMs" in out["error"]["msg"] or "No target PSMs" in out["error"]["msg"]:
                 # refusing to train is fine when nothing separates targets from decoys - not when a single feature,
                 # in one of the two directions, accepts plenty of genuine targets on the whole table
+                # judged only at the loose FDRs and only with a margin that makes the refusal impossible for a correct
+                # implementation: if a feature accepts t >= 60 targets on the whole table at fdr/5, i.e. (d+1)/t <= fdr/5,
+                # then any training set holding >= 1/4 of those targets (it holds >= half of the spectra) has
+                # (d'+1)/t' <= 4(d+1)/t <= 0.8 fdr at the same score threshold, so that feature accepts there too.
+                # (Without the margin a half can legitimately sit exactly on the threshold: (3+1)/80 = 0.05 is stored
+                # in float32 as 0.05000000075 and is not <= 0.05.)
                 best = 0
                 for t in tabs:
                     tt = t["truth"]["is_target"].values
                     for f in t["features"]:
                         for dsc in (True, False):
-                            best = max(best, accepted(tdc, t["df"][f].values, tt, fdr, dsc))
-                # judged only at the loose FDRs: there a feature accepting >= 60 targets on the whole table cannot
-                # plausibly accept none on a training subset holding at least half of it (at 0.003 the step from
-                # "no decoy above 334 targets" to nothing is one decoy away, a legitimate refusal)
+                            best = max(best, accepted(tdc, t["df"][f].values, tt, fdr / 5, dsc))
+                res.count("refusals_seen")
                 if best >= 60 and not strict:
                     res.violate("refused_although_a_feature_separates", "lower_is_better" if not case["best_desc"] else "higher_is_better",
-                                accepted_by_best_feature=best, msg=out["error"]["msg"], **extra)
+                                accepted_by_best_feature_at_fdr_over_5=best, msg=out["error"]["msg"], **extra)
             return res
         log = out["log"]
         training, final = cv.split_log(log)
